@@ -22,6 +22,9 @@ Transcribed (snapshot ef0888e + the `fix:` commits listed in findings/C06.txt):
   `alertNodeShared` / `getCreateFnOld` are the code as it was at the snapshot (level expressions shared by all
   groups; `currentKind` updated before a failing `determineReduceContextCreateFn` while the stale `createFn` stayed), kept for the
   counterexample theorems.
+`whereNestedNode` / `evalNestedNode`: where / eval whose lambda uses a lambda VAR (nested `EvalLambdaNode`, one
+  ExecutionState per node — the recorded finding nested-lambda-state-shared); `alert().crit(lambda: nl)` with a nested
+  lambda is exactly `alertNodeShared`.
 Abstracted: everything about a message except group id / time / the field `v` / name / tags; errors are
 "log and drop"; batches inside the concrete receivers (the generic demultiplexer does model them).
 Core Lean only.
@@ -305,6 +308,32 @@ def alertNode (pr : CountPred) : Node Unit (Nat × Nat) Pt Out :=
   pureNode (0, 0) (fun s p =>
     let r := alertDetermine pr s.1 s.2
     ((r.1, r.2), alertEmit s.2 r.2 p))
+
+/-! ### a lambda var used as a NESTED lambda node (`tick/stateful/eval_lambda_node.go`)
+
+`EvalLambdaNode.state` is created once in `NewEvalLambdaNode` and belongs to the node evaluator, which all
+`CopyReset` copies of the enclosing expression share: the stateful functions INSIDE the nested lambda have one
+state per node (`Γ`), those of the enclosing expression one per group (`σ`). Finding nested-lambda-state-shared. -/
+
+/-- `var nl = lambda: count() % M == R` … `|where(lambda: nl AND count() % 2 == 1)`: AND short-circuits, so the
+outer `count()` runs only when `nl` held. -/
+def whereNestedNode (m r : Nat) : Node Nat Nat Pt Out :=
+  { newGroup := fun γ _ _ => (γ, 0),
+    recv := fun γ s msg =>
+      match msg with
+      | .point _ p =>
+        if (γ + 1) % m == r then
+          (γ + 1, (s + 1, if (s + 1) % 2 == 1 then [{ key := p.key, time := p.time, proj := "-" }] else []))
+        else (γ + 1, (s, []))
+      | _ => (γ, (s, [])) }
+
+/-- `var nc = lambda: count()` … `|eval(lambda: nc * 1000 + count()).as('o')`. -/
+def evalNestedNode : Node Nat Nat Pt Out :=
+  { newGroup := fun γ _ _ => (γ, 0),
+    recv := fun γ s msg =>
+      match msg with
+      | .point _ p => (γ + 1, (s + 1, [{ key := p.key, time := p.time, proj := s!"i:{(γ + 1) * 1000 + (s + 1)}" }]))
+      | _ => (γ, (s, [])) }
 
 /-! ### InfluxQL node, stream side, `sum` / `count`, with the node-wide createFn cache -/
 
